@@ -18,7 +18,7 @@ from pathlib import Path
 
 from . import env
 
-EVID = env.VERIF / "evidence"
+EVID = Path(os.environ.get("VERIF_EVIDENCE_DIR") or (env.VERIF / "evidence"))
 REPLAY = EVID / "replay"
 MAX_CONFIRM_PER_KEY = 2
 MAX_CONFIRM_TOTAL = 30
